@@ -192,6 +192,7 @@ func pairsMap(ps []kv) map[string]string {
 // ---------------------------------------------------------------- case state (real objects)
 
 type request struct {
+	claims    []kv // verified JWT claims: (path joined by ".", value); a repeated path is a list claim
 	path      string
 	query     []kv
 	method    string
@@ -371,8 +372,12 @@ func (s *state) build(port int) {
 
 func parseReq(f []string) request {
 	// req <path> <query> <method> <authority> <scheme> <headers> [<regex table: for the model side only>]
-	return request{path: wire.Dec(f[1]), query: decPairs(f[2]), method: wire.Dec(f[3]), authority: wire.Dec(f[4]),
+	r := request{path: wire.Dec(f[1]), query: decPairs(f[2]), method: wire.Dec(f[3]), authority: wire.Dec(f[4]),
 		scheme: wire.Dec(f[5]), headers: decPairs(f[6])}
+	if len(f) > 8 {
+		r.claims = decPairs(f[8])
+	}
+	return r
 }
 
 // ---------------------------------------------------------------- exec
